@@ -194,7 +194,7 @@ func keyReject(cmd *Cmd, mt *MTable) bool {
 
 func ruleForReject(cmd *Cmd) string {
 	switch cmd.Bad {
-	case "key-missing", "key-type", "key-empty":
+	case "key-missing", "key-type":
 		return "C13.reject"
 	}
 	// strictness of the expression front end is C09/C16 (not claimed): what is
